@@ -686,9 +686,16 @@ func bigFirstUse(t *testing.T, n, goroutines int, oc fix.OpenCfg) {
 // negation) around it - under the race detector whatever the single-operand
 // path does with a cached bitmap shows.
 func hotWrappers(t *testing.T, goroutines, values int) {
+	hotWrappersCfg(t, goroutines, values, fix.OpenCfg{CacheCap: 1 << 26})
+	// the same without any cache on preloaded data: whatever a wrapper hands
+	// out or flips in place is then the stored bitmap itself
+	hotWrappersCfg(t, goroutines, values/3+1, fix.OpenCfg{Preload: true, CacheCap: -1})
+}
+
+func hotWrappersCfg(t *testing.T, goroutines, values int, oc fix.OpenCfg) {
 	spec := gen.DataSpec{Recipe: &gen.Recipe{N: 3000, Cols: []gen.ColSpec{
 		{Name: "a", Kind: gen.KMod, K: values, Prefix: "v"}, {Name: "b", Kind: gen.KMod, K: 3}}}}
-	c := &Case{Data: spec, Open: fix.OpenCfg{CacheCap: 1 << 26}, Rounds: 1}
+	c := &Case{Data: spec, Open: oc, Rounds: 1}
 	for g := 0; g < goroutines; g++ {
 		var w []Q
 		for v := 0; v < values; v++ {
@@ -696,6 +703,9 @@ func hotWrappers(t *testing.T, goroutines, values int) {
 			// for ITS wrapper around it: the wrappers of one negation have
 			// different cache keys and are evaluated for the first time together
 			n := model.Not(model.Eq("a", fmt.Sprintf("v%d", v)))
+			if oc.Preload {
+				n = model.Eq("a", fmt.Sprintf("v%d", v)) // the wrappers sit directly on a stored bitmap
+			}
 			var wr model.Expr
 			switch g % 4 {
 			case 0:
